@@ -13,25 +13,36 @@ from . import _sighash_common as G
 
 ID = "C15"
 LEVEL = "proof"
-RULE = ("spends of the P2PK / P2PKH / m-of-n (1<=m<=n<=3) families built and signed by the library for all twelve standard flag "
-        "bytes, code separators at every top-level position, CHECKSIG(VERIFY) / CHECKMULTISIG(VERIFY); every single-field mutation "
-        "after signing; transplanted signatures; multisig order / count / dummy element; missing extended fields; "
-        "non-trivial = the model ran the finalised script to an accept or a reject decided by a signature check "
-        "(outcome other than an early ERR for accepts; all cases counted distinct by (op, arguments))")
+RULE = ("spends of the P2PK / P2PKH / m-of-n (1<=m<=n<=3) families built and signed by the library itself (spend.build: Transaction::sign, "
+        "P2PKHAddress::get_locking_script/get_unlocking_script, SighashSignature::to_bytes) for all twelve standard flag bytes, code "
+        "separators at every top-level position, CHECKSIG(VERIFY) / CHECKMULTISIG(VERIFY); the model rebuilds the same signed transactions "
+        "byte for byte; every single-field mutation after signing (version, locktime, each outpoint, sequence, output value / script / "
+        "count, declared value, key, hash, r, s, high-S, flag byte, separator added / moved / removed); transplanted signatures; multisig "
+        "order / count / dummy element; missing extended fields; input index out of range; conditionals in front of a separator "
+        "(documented limit); non-trivial = the model ran the finalised script to the end (accept or false); distinct by (op, arguments)")
 TRUSTED = ["hand-written Gallina model coq/Model/InterpSig.v + coq/Model/Interp.v of src/interpreter/{mod,script_matching}.rs, "
            "TxIn::get_finalised_script, Transaction::_verify, ECDSA::verify_hashbuf_impl (tied by this correspondence run)",
-           "coq/Model/Sighash.v (C03/C10), coq/Model/Sig.v + coq/Prim/Der.v (C06), coq/Model/Ecdsa.v + coq/Prim/Secp256k1.v (C05/C07), "
-           "coq/Model/Tx.v / Script.v (C01/C02), coq/Model/HashApi.v (C13)",
-           "the concrete secp256k1 formulas of coq/Prim/Secp256k1.v run on Bignums.BigZ (Proofs/Secp256k1Refine.v: equal to the Z instance); "
-           "they are tied to k256 by correspondence, not proved to form a group",
-           "the spec column parses the transaction with coq/Model/Tx.v (property C01) and reads both scripts with the independent tokenizer"]
-ASSUMPTIONS = ["'any change to a signed field makes it reject' is cryptographic (second-preimage / unforgeability): only the "
-               "characterisation 'accept iff ECDSA-valid on the specified preimage' is proved; the mutation stream supports the rest",
-               "library_spend_accepted is proved relative to the ECDSA group hypotheses of Proofs/EcdsaAbstract.v (named in the theorem)",
-               "the hash cache of the transaction copy held by the interpreter is transparent (property C04)",
-               "a multisig locking script that carries a byte string that is not a public key may be refused as a whole even when the "
-               "signatures match the remaining keys (spec column: accept or reject)"]
+           "coq/Model/Sighash.v (C03/C10), coq/Model/Sig.v + coq/Prim/Der.v (C06), coq/Model/Ecdsa.v + coq/Prim/Secp256k1.v + coq/Prim/Rfc6979.v "
+           "(C05/C07), coq/Model/Tx.v / Script.v (C01/C02), coq/Model/HashApi.v (C13)",
+           "the run executes the BigZ instance of the curve (fast_prims); Proofs/InterpSigRefine.v, Secp256k1Refine.v, EcdsaRefine.v: call by call "
+           "equal to the Z instance the theorems are about (these refinement lemmas depend on the stdlib Uint63 axioms; not pinned)",
+           "the concrete secp256k1 formulas are tied to k256 by correspondence, not proved to form a group (hypothesis secp256k1_group of the "
+           "_partial theorems)",
+           "the specification column parses the transaction with coq/Model/Tx.v (property C01) and reads both scripts from their bytes with the "
+           "independent tokenizer; its verdict function is proved to be met by the model (C15_spend_meets_spec)"]
+ASSUMPTIONS = ["'any change to a signed field makes it reject' is cryptographic (second preimages / forgery): proved is 'accept iff ECDSA-valid on "
+               "the specified preimage'; the rest is supported by the mutation stream (every mutant outcome is compared with the specification)",
+               "library_*_accepted_partial are relative to secp256k1_group (Proofs/EcdsaSecp.v), named as a premise",
+               "the hash cache of the transaction copy held by the interpreter is transparent (property C04); the model uses the uncached preimage",
+               "a multisig locking script carrying a byte string that is not a public key may be refused as a whole even when the signatures "
+               "match the remaining keys (specification column: accept or reject; completeness theorem assumes all keys decode)",
+               "flag bytes 0x40 / 0x80 (enum values FORKID / ANYONECANPAY on their own) and SINGLE|FORKID without an output at the index are "
+               "outside the specification (correspondence only)",
+               "documented limit outside the quantified families: the OP_CODESEPARATOR position is counted in executed (spliced) elements, so "
+               "after a conditional the subscript is cut at the wrong place of the nested locking script (or the check errors)"]
+EXTRA_TARGETS = ["Proofs/InterpSigRefine.vo"]
 
+PK1 = "0279be667ef9dcbbac55a06295ce870b07029bfcdb2dce28d959f2815b16f81798"     # public key of KEYS[0]
 FLAGS = G.FORKID_FLAGS + G.LEGACY_FLAGS
 SECP_N = 0xFFFFFFFFFFFFFFFFFFFFFFFFFFFFFFFEBAAEDCE6AF48A03BBFD25E8CD0364141
 KEYS = ["00" * 31 + "01", "e8f32e723decf4051aefac8e2c93c9c5b214313817cdb01a1494b917c8436b35", "00" * 31 + "03",
@@ -205,6 +216,14 @@ def presample(rng, tier):
             for p in poss:
                 cases.append(build_case(rng, kind, fl, seps=[p], variant=variant, n=n if kind == "ms" else None))
         cases.append(build_case(rng, kind, fl, seps=list(range(plain_len(kind, n, 0) + 1)), variant=0, n=n if kind == "ms" else None))
+    # conditionals in front of a separator (documented limit): the library's subscript is cut at the position counted in
+    # executed elements; a signature over that subscript is accepted, one over the script code of the protocol is not
+    t1 = base_tx(rng, 1, 1).hex()
+    for lock, subs in [("5163ab68" + "21" + PK1 + "ac", ["ac", "68" + "21" + PK1 + "ac", "21" + PK1 + "ac"]),
+                       ("0063ab6751ab68" + "21" + PK1 + "ac", ["21" + PK1 + "ac", "ac"])]:
+        for sub in subs:
+            for fl in (0x41, 0x01):
+                cases.append(("spend.build", ["raw", t1, "0", "9", KEYS[0], "0.%d" % fl, lock + "." + sub, "0"]))
     return cases
 
 
@@ -328,9 +347,6 @@ def ms_protocol(rng, txhex, idx, ext):
     return out
 
 
-PK1 = "0279be667ef9dcbbac55a06295ce870b07029bfcdb2dce28d959f2815b16f81798"
-
-
 def generate(rng, tier, pre=None):
     cases = []
     built = []
@@ -338,9 +354,15 @@ def generate(rng, tier, pre=None):
         if out and out.startswith("OK:"):
             f = out[3:].split(";")
             built.append((args[0], f[0], int(args[2]), f[1], args))
-    # 1. what the library built must be accepted
+    # 0. the assembling itself (Transaction::sign, script builders): the model reproduces the signed transaction byte for byte
+    step = 3 if tier == "quick" else 1
+    for k, ((op, args), out) in enumerate(pre or []):
+        if k % step == 0 or args[0] == "raw":
+            cases.append((op, list(args)))
+    # 1. what the library built must be accepted (the `raw` ones are outside the families: correspondence only)
     for kind, txhex, idx, ext, _ in built:
         cases.append(spend_case(txhex, idx, ext))
+    built = [b for b in built if b[0] != "raw"]
     # 2. mutations
     by_kind = {}
     for b in built:
